@@ -41,8 +41,8 @@ def cases(tier, seed):
                 for i in rep:
                     for j in rep:
                         if i < j: out.append({'id': '%s %r pos %d,%d' % (fam, s, i, j), 'fam': fam, 'entry': entry, 'text': t, 'pos': [i, j], 'canon': True})
-    for t in G.sugar_goals():
-        out.append({'id': 'sugar %r' % G.s(t), 'fam': 'sugar', 'entry': 'subgoal', 'text': t, 'pos': [], 'canon': False})
+    for t, want in zip(G.sugar_goals(), [w for _, w in G.SUGAR]):
+        out.append({'id': 'sugar %r' % G.s(t), 'fam': 'sugar', 'entry': 'subgoal', 'text': t, 'pos': [], 'canon': False, 'want': want})
     for t in G.short_facts():
         out.append({'id': 'short fact %r' % G.s(t), 'fam': 'short-fact', 'entry': 'rule', 'text': t, 'pos': [], 'canon': False})
     return out
@@ -99,6 +99,8 @@ def run(drv, case):
         printed = drv.show(r)
         if case['canon'] and not chars_eq(m, printed, chars):
             raise Violation('prints-differently:%s' % case['fam'], '%s: %r prints as %r' % (desc, txt(chars), txt(printed)))
+        if case.get('want') and not chars_eq(m, printed, list(case['want'])):
+            raise Violation('wrong-canonical-form:%s' % case['fam'], '%s: %r prints as %r, the named form is %r' % (desc, txt(chars), txt(printed), case['want']))
         r2, res2 = drv.parse(entry, printed)
         if res2[0] != 'ok':
             raise Violation('printed-text-rejected:%s' % case['fam'], '%s: the printed text %r is rejected: %s' % (desc, txt(printed), txt(res2[1].chars)[:150]))
